@@ -12,7 +12,25 @@ import (
 
 type invOracle struct {
 	taint map[string]bool
-	lastKind string
+	last  *Snap
+}
+
+// sameNodeAgg: the node store changes every block (reward accumulator); the aggregates
+// C14 reads change only with pledges and pool totals.
+func sameNodeAgg(a, b *NodePart) bool {
+	if a == b {
+		return true
+	}
+	if len(a.Pledges) != len(b.Pledges) || a.Pool.TotalStorage != b.Pool.TotalStorage || !a.Pool.TotalPledged.IsEqual(b.Pool.TotalPledged) {
+		return false
+	}
+	for k, x := range a.Pledges {
+		y, ok := b.Pledges[k]
+		if !ok || x.UsedStorage != y.UsedStorage || x.TotalStorage != y.TotalStorage || !x.TotalShardPledged.IsEqual(y.TotalShardPledged) || !x.TotalStoragePledged.IsEqual(y.TotalStoragePledged) {
+			return false
+		}
+	}
+	return true
 }
 
 func newInvOracle() *invOracle { return &invOracle{taint: map[string]bool{}} }
@@ -34,10 +52,10 @@ func (o *invOracle) Step(e *Env, si *StepInfo) {
 		return
 	}
 	s := si.Cur
-	if si.Prev != nil && s.Order == si.Prev.Order && s.Model == si.Prev.Model && s.Sao == si.Prev.Sao && s.Node == si.Prev.Node && s.Market == si.Prev.Market && o.lastKind == "clean" {
+	if p := o.last; p != nil && s.Order == p.Order && s.Model == p.Model && s.Sao == p.Sao && s.Market == p.Market && sameNodeAgg(s.Node, p.Node) {
 		return
 	}
-	o.lastKind = "clean"
+	o.last = s
 	o.c13(e, s)
 	o.c14(e, s)
 }
